@@ -20,7 +20,7 @@ RULE = (
 )
 TIERS = {"quick": {"shards": 8, "n": 700, "budget_s": 200}, "thorough": {"shards": 16, "n": 25000, "budget_s": 2700}}
 FLOOR = {"quick": 300, "thorough": 20000}
-REQUIRED_LABELS = {"quick": ["d:collection", "kind:literal", "kind:optliteral", "kind:dict", "kind:jlist", "empty-header", "n_params=0", "param-without-description", "default-$id", "multi-paragraph-header", "header:two-or-more-blank-lines"], "thorough": []}
+REQUIRED_LABELS = {"quick": ["d:collection", "kind:literal", "kind:optliteral", "kind:dict", "kind:jlist", "empty-header", "n_params=0", "param-without-description", "default-$id", "multi-paragraph-header", "header:two-or-more-blank-lines", "half-return-entry", "full-return-entry"], "thorough": []}
 ASSUMPTIONS = ["jsonschema %s Draft202012Validator is the reference for schema validity" % "(offline wheel)"]
 
 
@@ -41,6 +41,12 @@ def _blank_some_docs(draw, base):
         elif k == 1:
             p.pop("doc", None)
     case["identifier"] = draw(st.sampled_from(["https://example.com/foo.schema.json", None]))
+    if case.get("returns") and draw(st.integers(0, 2)) == 0:
+        # 'with or without ... return entry': a HALF return entry - a type without description (a bare `-> bool`), or a
+        # description without type
+        case["returns"] = dict(case["returns"])
+        case["returns"].pop(draw(st.sampled_from(["doc", "typ"])), None)
+        case["half_return"] = True
     if draw(st.integers(0, 3)) == 0:
         # 'with ... prose description': a long description of several paragraphs, separated by one to three blank
         # lines, some paragraphs of two lines (JSON carries the text verbatim, so the line structure must survive)
@@ -172,6 +178,19 @@ def oracle(case):
             r.fail("rt-keys", "%s: %s" % (n, sorted(extra)))
     if normdoc(back.get("doc")) != normdoc(_expected_header(case)):
         r.fail("rt-header", "%r -> %r" % (_expected_header(case), back.get("doc")))
+    # the return entry travels inside `description` (as the ReST docstring of the interface) and must come back
+    wr, gr = case.get("returns"), (back.get("returns") or {}).get("return_type")
+    if wr:
+        r.label("has-return-entry", "half-return-entry" if case.get("half_return") else "full-return-entry")
+        if gr is None:
+            r.fail("rt-returns", "return entry %r is gone after the round-trip (doc came back as %r)" % (wr, back.get("doc")))
+        else:
+            if wr.get("typ") != gr.get("typ"):
+                r.fail("rt-returns", "return type %r -> %r" % (wr.get("typ"), gr.get("typ")))
+            if normdoc(wr.get("doc")) != normdoc(gr.get("doc")):
+                r.fail("rt-returns", "return description %r -> %r" % (wr.get("doc"), gr.get("doc")))
+    elif gr is not None:
+        r.fail("rt-returns", "a return entry %r was invented" % (gr,))
     if "\n" in (case["doc"] or ""):
         r.label("multi-paragraph-header")
         if "\n\n\n" in case["doc"]:
